@@ -649,9 +649,11 @@ pub fn evaluate_ast(
                 PostfixOp::Factorial => {
                     let n = val.as_number()?;
                     if n >= 0.0 && n == (n as u64) as f64 {
-                        Ok(Number(
-                            (1..(n as u64) + 1).map(|x| x as f64).product::<f64>(),
-                        ))
+                        // 171! already exceeds f64::MAX, so every larger factorial is
+                        // infinity as well: cap the loop there instead of running it n times
+                        // (and instead of computing `n + 1`, which overflows for n = u64::MAX)
+                        let last = (n as u64).min(171);
+                        Ok(Number((1..=last).map(|x| x as f64).product::<f64>()))
                     } else {
                         Err(RuntimeError::with_span(
                             "factorial only works on non-negative integers".to_string(),
